@@ -280,7 +280,7 @@ def c13(A):
             for r in connect_reqs.get(c.idx, []):
                 if r.i_ret < i_s and not r.fired_before(i_s):
                     emax += 1
-            if lost and ondisc and not any(i < i_s for i in disc_cbs.get(c.idx, [])):
+            if lost and c.has_ondisc and not any(i < i_s for i in disc_cbs.get(c.idx, [])):
                 emax += 1
         o.dec("snapshots")
         if total > emax:
